@@ -198,13 +198,33 @@ func runC06(a *Analyzer, r *Results) {
 				}
 			}
 		}
+		subIdx, cmtIdx := 0, 1
+		if fn == nil {
+			// ... or a method of a committee type taking the subset (receiver = committee, in either parameter order)
+			for _, f := range a.P.Funcs {
+				if funcPkgPath(f) != pkgPath || len(f.Params) != 2 || f.Signature.Results().Len() != 1 || !isInt(f.Signature.Results().At(0).Type()) {
+					continue
+				}
+				ci, si := -1, -1
+				for i, p := range f.Params {
+					if isCommitteeSlice(p.Type()) {
+						ci = i
+					} else if sl, ok := p.Type().Underlying().(*types.Slice); ok && strings.HasSuffix(typeShort(sl.Elem()), "MemberId") {
+						si = i
+					}
+				}
+				if ci >= 0 && si >= 0 {
+					fn, id, subIdx, cmtIdx = f, funcID(f), si, ci
+				}
+			}
+		}
 		if fn == nil {
 			broken("unresolved anchor: subset weight function of services/quorum")
 		}
 		rets, und := a.Returns(id, nil)
 		r.Undecided = append(r.Undecided, und...)
-		sub := Root(fn.Params[0].Name())
-		cmt := Root(fn.Params[1].Name())
+		sub := Root(fn.Params[subIdx].Name())
+		cmt := Root(fn.Params[cmtIdx].Name())
 		for _, e := range rets {
 			ev := a.NewEval(e, r)
 			val := ev.Arg(0)
@@ -242,7 +262,8 @@ func runC06(a *Analyzer, r *Results) {
 						// the threshold computed in place from the committee's total weight (no call of the exported helper)
 						okT = isThresholdFormula(th, cmt, c.rule == "Q4.quorum")
 					}
-					okW := wt.Op == "call" && len(wt.Args) == 2 && wt.Args[0].Key() == sub.Key() && wt.Args[1].Key() == cmt.Key() && strings.HasPrefix(wt.Name, "quorum.")
+					okW := wt.Op == "call" && len(wt.Args) == 2 && strings.HasPrefix(wt.Name, "quorum.") &&
+						((wt.Args[0].Key() == sub.Key() && wt.Args[1].Key() == cmt.Key()) || (wt.Args[1].Key() == sub.Key() && wt.Args[0].Key() == cmt.Key())) // (a method of a committee type has the committee first)
 					ok = okT && okW
 					if !okT {
 						why += "; threshold is not " + c.calc + "(weights of the committee argument)"
